@@ -35,6 +35,7 @@ def wrap_exact(x, c, P):
 
 
 # ------------------------------------------------------------------------------ generator
+EB_FOCUS = {"use_grids": True, "p_expand": 0.0, "p_eb": 1.0, "p_restart": 0.12, "p_reconf": 0.2, "p_it0": 0.6, "equil": [3, 6, 12, 20, 40]}
 RECONF_FOCUS = {"p_restart": 0.2, "p_reconf": 0.7, "p_out": 0.35, "p_eb": 0.0}
 REBIN_FOCUS = {"use_grids": True, "p_expand": 0.0, "sig_mode": False, "keep": True, "p_eb": 0.0, "periodic": False,
                "p_restart": 0.15, "p_out": 0.4, "big_grids": True}
@@ -104,14 +105,15 @@ def gen_scn(r, k, forced=None):
         nt = 1
         for v in vars_:
             nt *= v["nx"]
-        c["eb"] = {"raw": [r.choice([0.0, 0.5, 1.0, 1.0, 2.0, 4.0, 8.0]) for _ in range(nt)], "equil": r.choice([0, 0, 3, 6, 20])}
+        c["eb"] = {"raw": [r.choice([0.0, 0.5, 1.0, 1.0, 2.0, 4.0, 8.0]) for _ in range(nt)], "equil": r.choice(f.get("equil", [0, 0, 3, 6, 20]))}
         if not any(c["eb"]["raw"]):
             c["eb"]["raw"][0] = 1.0
     c["pmf"] = use_grids and not c["eb"] and r.random() < f.get("p_pmf", 0.2)
     c["pmf_keep"] = c["pmf"] and r.random() < 0.4
     c["gfreq_explicit"] = use_grids and f.get("gfreq_explicit", r.random() < 0.4)
     c["gfreq"] = f.get("gfreq", r.choice([1, 2, 3, 4, 6])) if c["gfreq_explicit"] else c["freq"]
-    c["it0"] = r.randint(0, 9) if r.random() < 0.3 else 0
+    c["it0"] = r.randint(0, 9) if r.random() < f.get("p_it0", 0.3) else 0
+    c["binary"] = r.random() < 0.35          # format of the state files (formatted text or binary stream)
     nsteps = r.randint(8, 30)
     p_out = f.get("p_out", r.choice([0.0, 0.1, 0.25]))
     p_save = f.get("p_save", r.choice([0.0, 0.0, 0.08]))
@@ -404,22 +406,23 @@ def scenario_text(c, dump=True):
             L.append("pos %d 0 0 0" % first[d])
     nstate = 0
     par = None
+    fmt = "binary" if c.get("binary") else "text"
     for e in c["events"]:
         if e[0] == "save":
-            L.append("save text c05.state")
+            L.append("save %s c05.state" % fmt)
             continue
         if e[0] == "pmf":
             L.append("metapmf m")
             continue
         if e[0] == "reload":
             nstate += 1
-            L += ["save text c05l%d.state" % nstate, "load c05l%d.state" % nstate]
+            L += ["save %s c05l%d.state" % (fmt, nstate), "load c05l%d.state" % nstate]
             continue
         if e[0] in ("restart", "rebin", "reconf"):
             # the state is written, a fresh instance reads it (for "rebin": with new boundaries and rebinGrids on; for
             # "reconf": with other hill parameters, which stay for the later runs)
             nstate += 1
-            L += ["metatraj m", "save text c05r%d.state" % nstate, "new"]
+            L += ["metatraj m", "save %s c05r%d.state" % (fmt, nstate), "new"]
             if e[0] == "reconf":
                 par = e[1]
             L += config_text(c, e[1], True, par) if e[0] == "rebin" else config_text(c, None, False, par)
@@ -926,7 +929,7 @@ def oracle(c, impl, traj):
                 a = 0
                 for v, b in zip(c["vars"], tb):
                     a = a * v["nx"] + b
-                ebf = 1.0 / target_processed(c)[a]
+                ebf = ebf1 = 1.0 / target_processed(c)[a]
                 if it < c["eb"]["equil"]:
                     lam = (c["eb"]["equil"] - it) / float(c["eb"]["equil"])
                     ebf = lam + (1 - lam) * ebf
@@ -952,6 +955,11 @@ def oracle(c, impl, traj):
                                                         for v, xv in zip(c["vars"], x))
                 if c["wt"] and hetero and close(seen[-1][1], cur["W"] * (ebf * math.exp(-spec_bias(c, geom, x, asconf[0], asconf[1])[0] / (c["bt"] * KB)))):
                     sig = "widths:hills-evaluated-with-the-configured-width-not-their-own"
+                elif c.get("eb") and c["eb"]["equil"] > 0 and (c["it0"] > 0 or restarted) and not c["wt"] and \
+                        any(close(seen[-1][1], cur["W"] * (lam_ + (1 - lam_) * ebf1))
+                            for lam_ in [max(0.0, (c["eb"]["equil"] - k_) / float(c["eb"]["equil"])) for k_ in range(0, it + 1)]):
+                    # the weight is the one of the ramp at another step than the absolute one
+                    sig = "ebmeta:ramp-not-on-the-absolute-step"
                 elif c.get("eb") and eb_outside:
                     sig = "ebmeta:target-read-out-of-range"
                 elif c.get("eb") and seen[-1][1] != seen[-1][1]:
@@ -1124,6 +1132,11 @@ def witnesses():
         # ebMeta with the default ebMetaEquilSteps 0 and a hill at step 0 (stepZeroData)
         _cfg("w_ebmeta_step0", [_var()], [[3.5], [3.5], [2.5]], stepzero=True,
              eb={"raw": [1.0, 2.0, 4.0, 8.0, 8.0, 4.0, 2.0, 1.0], "equil": 0}),
+        # ebMeta: the ramp runs on the absolute step: a job started at step 5, and one restarted inside / after the ramp
+        _cfg("w_ebmeta_it0", [_var()], [[3.5], [3.5], [0.5], [7.5], [2.5]], it0=5,
+             eb={"raw": [1.0, 2.0, 4.0, 8.0, 8.0, 4.0, 2.0, 1.0], "equil": 20}),
+        _cfg("w_ebmeta_restart", [_var()], [[3.5], [3.5], [0.5], "restart", [0.5], [7.5], [2.5], [1.5], [6.5], "restart", [6.5], [0.5], [5.5]],
+             eb={"raw": [1.0, 2.0, 4.0, 8.0, 8.0, 4.0, 2.0, 1.0], "equil": 6}, binary=True),
         # the free-energy file: plain, and well-tempered with keepFreeEnergyFiles; a hill not yet tabulated is not in it
         _cfg("w_pmf", [_var()], [[3.5], [3.5], [5.25], "pmf", [1.5], "pmf"], pmf=True),
         _cfg("w_pmf_wt", [_var(), _var(nx=4, w=2.0, sigma=2.0)], [[3.5, 4.5], [3.5, 4.5], [5.25, 1.0], "pmf", [1.5, 7.0], "pmf", [1.5, 7.0], "pmf"],
@@ -1324,6 +1337,7 @@ def check(run):
     cs += [gen_scn(r, "f%d" % k, REBIN_FOCUS) for k in range(20 if quick else 600)]
     cs += [gen_scn(r, "c%d" % k, RECONF_FOCUS) for k in range(25 if quick else 600)]
     cs += [gen_scn(r, "d%d" % k, dict(REBIN_FOCUS, p_reconf=0.45, p_restart=0.2)) for k in range(10 if quick else 300)]
+    cs += [gen_scn(r, "e%d" % k, EB_FOCUS) for k in range(12 if quick else 300)]
     nsample = 0
     for (c, impl, mo, txt, rcv, o, traj, mline) in run_scenarios(run, exe, model, cs, d):
         check_one(run, c, impl, mo, txt, rcv, o, traj, mline)
